@@ -23,6 +23,15 @@ static void *vmm_take(size_t size, int zero) {
 	g_allocs++;
 	g_last_size = size;
 	if (k >= VMM_MAXREQ || ((g_failmask >> k) & 1ULL)) { g_failed++; return NULL; }
+#if defined(VW) && defined(URI_CHAR) && !defined(VREPLAY)
+	/* W pass: give text blocks the element type wchar_t (CBMC types a heap object after the sizeof in the malloc
+	 * argument; an untyped block is a byte array and every wchar_t access becomes four byte operations on it) */
+	if (size == sizeof(URI_TYPE(PathSegment))) p = zero ? calloc(1, sizeof(URI_TYPE(PathSegment))) : malloc(sizeof(URI_TYPE(PathSegment)));
+	else if (size == sizeof(URI_TYPE(QueryList))) p = zero ? calloc(1, sizeof(URI_TYPE(QueryList))) : malloc(sizeof(URI_TYPE(QueryList)));
+	else if (size == sizeof(UriIp6)) p = zero ? calloc(1, sizeof(UriIp6)) : malloc(sizeof(UriIp6));
+	else if (size % sizeof(wchar_t) == 0 && size > sizeof(UriIp4)) p = zero ? calloc(size / sizeof(wchar_t), sizeof(wchar_t)) : malloc((size / sizeof(wchar_t)) * sizeof(wchar_t));
+	else
+#endif
 #ifdef VMM_MAXCONST
 	/* requests of up to VMM_MAXCONST bytes get a block whose size is a *constant* in each branch (heap objects of
 	 * symbolic size are very expensive in CBMC); the block still has exactly the requested size */
